@@ -68,6 +68,9 @@ type Ctx struct {
 	curSec   string
 	curIdx   int64
 	maxViol  int
+	// Known holds the keys of recorded known findings: they are reported but do not count against the violation cap.
+	Known     map[string]bool
+	knownHits map[string]int
 }
 
 // NewCtx makes a context.
@@ -142,6 +145,9 @@ func (c *Ctx) JournalNote(b []byte) {
 // case gets its own generator derived from (seed, property, section, index),
 // is journalled before it runs, and has panics turned into violations.
 func (c *Ctx) Section(name string, n int64, f func(i int64, r *gen.Rand)) {
+	if c.OnlySec != "" && c.OnlySec != name {
+		return
+	}
 	if c.OnlyIdx >= 0 {
 		if c.OnlySec != name {
 			return
@@ -161,6 +167,9 @@ func (c *Ctx) Section(name string, n int64, f func(i int64, r *gen.Rand)) {
 // SectionSerial is like Section but runs every index in every batch 0 only
 // (for small enumerations that are not worth splitting).
 func (c *Ctx) SectionSerial(name string, n int64, f func(i int64, r *gen.Rand)) {
+	if c.OnlySec != "" && c.OnlySec != name {
+		return
+	}
 	if c.OnlyIdx < 0 && c.Batch != 0 {
 		return
 	}
@@ -184,7 +193,19 @@ func (c *Ctx) tooMany() bool {
 	c.mu.Lock()
 	defer c.mu.Unlock()
 
-	return len(c.res.Violations) >= c.maxViol
+	return c.countReal() >= c.maxViol
+}
+
+// countReal counts recorded violations that are not known findings (caller holds c.mu).
+func (c *Ctx) countReal() int {
+	n := 0
+	for _, v := range c.res.Violations {
+		if !c.Known[v.Key] {
+			n++
+		}
+	}
+
+	return n
 }
 
 func (c *Ctx) runCase(name string, i int64, f func(i int64, r *gen.Rand)) {
@@ -310,7 +331,18 @@ func (c *Ctx) MarkExhaustive(section string) {
 func (c *Ctx) Violate(kind, key string, detail interface{}) {
 	c.mu.Lock()
 	defer c.mu.Unlock()
-	if len(c.res.Violations) >= c.maxViol {
+	full := c.Prop + ":" + key
+	if c.Known[full] {
+		if c.knownHits == nil {
+			c.knownHits = map[string]int{}
+		}
+		c.knownHits[full]++
+		if c.knownHits[full] > 2 {
+			c.res.Counters["known_finding_hits."+full]++
+
+			return
+		}
+	} else if c.countReal() >= c.maxViol {
 		return
 	}
 	c.res.Violations = append(c.res.Violations, Violation{
